@@ -281,7 +281,10 @@ def graph_level(sp, col, shard):
                            'example_missing_assign': ref[miss[0]][0]['assign'], 'api_constraints': case.cons}, flags,
                           where=dict(where0, level=enc, dir='missing',
                                      linked_partial_only=common.linked_partial_only(
-                                         sp, [x['assign'] for k in miss for x in ref[k]])))
+                                         sp, [x['assign'] for k in miss for x in ref[k]]),
+                                     linked_full_nonzero_only=common.linked_full_nonzero_only(
+                                         sp, [x['assign'] for k in miss for x in ref[k]]),
+                                     linked_forced_is_first=common.linked_forced_is_first(gp)))
         if enc == 'COMPLETE':
             try:
                 res = gp.get_all_discrete_x()
